@@ -434,35 +434,6 @@ theorem sortEntries_sorted (l : List Entry) : (sortEntries l).Pairwise KeyLe := 
 
 
 
-def loopData : Data := [(['A'], .str "x${A}".toList)]
-
-theorem inner_A (f : Nat) (m : List Name) :
-    parseLine false loopData (f + 2) [] ['A'] m = .ok (['A'], m) := by
-  simp [parseLine]
-
-theorem cmake_loop_aux : ∀ (f : Nat) (pre : List Char) (m : List Name),
-    parseLine false loopData f pre "${A}".toList m = .error .fuel := by
-  intro f
-  induction f with
-  | zero => intros; rfl
-  | succ f ih =>
-    intro pre m
-    have hb : bracket 1 ['A', '}'] [] = .ok (['A'], []) := by rfl
-    show parseLine false loopData (f + 1) pre ['$', '{', 'A', '}'] m = _
-    rw [parseLine]
-    simp only [Bool.false_eq_true, if_false, hb]
-    match f, ih with
-    | 0, _ => rfl
-    | 1, _ => rfl
-    | f + 2, ih =>
-      rw [inner_A]
-      have hv : varGet loopData ['A'] m = ("x${A}".toList, m) := by rfl
-      simp only [hv]
-      have : (['A'].any fun c => !isCmakeChar c) = false := by decide
-      simp only [this, Bool.false_eq_true, if_false]
-      exact ih ('x' :: pre) m
-
-
 theorem scan_fuel : ∀ (f g : Nat) (p : Bool) (s : List Char), s.length ≤ f → s.length ≤ g →
     scan f p s = scan g p s := by
   intro f
@@ -581,5 +552,199 @@ instance instDecEqExcept {α : Type} [DecidableEq α] : DecidableEq (Except Err 
   | .error x, .error y => if h : x = y then isTrue (by rw [h]) else isFalse (by intro e; cases e; exact h rfl)
   | .ok _, .error _ => isFalse (by intro e; cases e)
   | .error _, .ok _ => isFalse (by intro e; cases e)
+
+
+theorem splitAt_some : ∀ {r nm after : List Char}, splitAt r = some (nm, after) →
+    r = nm ++ '@' :: after ∧ '@' ∉ nm := by
+  intro r
+  induction r with
+  | nil => intro nm after h; simp [splitAt] at h
+  | cons c r ih =>
+    intro nm after h
+    simp only [splitAt] at h
+    split at h
+    · rename_i hc
+      simp only [Option.some.injEq, Prod.mk.injEq] at h
+      obtain ⟨rfl, rfl⟩ := h
+      have : c = '@' := by simpa using hc
+      subst this; simp
+    · rename_i hc
+      simp only [Option.map_eq_some_iff] at h
+      obtain ⟨⟨a, b⟩, hab, he⟩ := h
+      simp only [Prod.mk.injEq] at he
+      obtain ⟨rfl, rfl⟩ := he
+      obtain ⟨h1, h2⟩ := ih hab
+      refine ⟨by rw [h1]; simp, ?_⟩
+      intro hm
+      rcases List.mem_cons.mp hm with h3 | h3
+      · exact hc (by simp [← h3])
+      · exact h2 h3
+
+theorem bracket_some (cnt : Nat) (r acc : List Char) : ∀ {inner after : List Char},
+    bracket cnt r acc = .ok (inner, after) → inner ++ '}' :: after = acc.reverse ++ r := by
+  fun_induction bracket cnt r acc <;> intro inner after h
+  · cases h
+  · rename_i ih; have := ih h; simpa using this
+  · simp only [Except.ok.injEq, Prod.mk.injEq] at h
+    obtain ⟨rfl, rfl⟩ := h; rfl
+  · rename_i ih; have := ih h; simpa using this
+  · rename_i ih; have := ih h; simpa using this
+  · cases h
+  · rename_i ih; have := ih h; simpa using this
+
+theorem bracket_length {cnt : Nat} {r inner after : List Char} (h : bracket cnt r [] = .ok (inner, after)) :
+    inner.length + 1 + after.length = r.length := by
+  have := congrArg List.length (bracket_some cnt r [] h)
+  simp at this; omega
+
+theorem bracket_ne_fuel (cnt : Nat) (r acc : List Char) : bracket cnt r acc ≠ .error .fuel := by
+  fun_induction bracket cnt r acc <;> simp_all
+
+/-- after the repair every iteration consumes template text, so `rest.length + 1` fuel is enough -/
+theorem fuel_suffices (atOnly : Bool) (d : Data) (f : Nat) (pre rest : List Char) (m : List Name) :
+    rest.length < f → parseLine atOnly d f pre rest m ≠ .error .fuel := by
+  fun_induction parseLine atOnly d f pre rest m
+  all_goals intro hlen
+  all_goals try (simp at hlen)
+  case case2 => simp
+  case case3 nm after hs _ _ _ _ ih =>
+    have hl := congrArg List.length (splitAt_some hs).1
+    simp at hl; exact ih (by omega)
+  case case4 ih => exact ih hlen
+  case case5 ih => exact ih hlen
+  case case6 ih => exact ih (by simp; omega)
+  case case7 e hb =>
+    intro he; simp only [Except.error.injEq] at he; subst he
+    exact bracket_ne_fuel _ _ _ hb
+  case case8 inner after hb e hn ih =>
+    have hl := bracket_length hb
+    intro he; simp only [Except.error.injEq] at he; subst he
+    exact ih (by omega) hn
+  case case9 => simp
+  case case10 inner after hb _ _ _ _ _ _ _ ih2 ih1 =>
+    have hl := bracket_length hb
+    exact ih1 (by omega)
+  case case11 ih => exact ih hlen
+
+
+
+theorem cmakeChar_ne {c : Char} (h : isCmakeChar c = true) : c ≠ '$' ∧ c ≠ '}' ∧ c ≠ '@' ∧ c ≠ '\n' ∧ c ≠ '{' := by
+  refine ⟨?_, ?_, ?_, ?_, ?_⟩ <;> (intro e; subst e; revert h; decide)
+
+theorem bracket_name (post : List Char) : ∀ (name acc : List Char), (∀ c ∈ name, isCmakeChar c = true) →
+    bracket 1 (name ++ '}' :: post) acc = .ok (acc.reverse ++ name, post) := by
+  intro name
+  induction name with
+  | nil => intro acc _; simp [bracket]
+  | cons c name ih =>
+    intro acc h
+    have hc := h c (by simp)
+    obtain ⟨h1, h2, h3, h4, _⟩ := cmakeChar_ne hc
+    have := ih (c :: acc) (fun x hx => h x (List.mem_cons_of_mem _ hx))
+    rw [List.cons_append, bracket]
+    · simp [h3, h4, hc, this]
+    · intro r hh _; exact h1 hh
+    · intro hh; exact h2 hh
+
+theorem name_no_special {name : List Char} (h : ∀ c ∈ name, isCmakeChar c = true) : '@' ∉ name ∧ '$' ∉ name :=
+  ⟨fun hm => (cmakeChar_ne (h _ hm)).2.2.1 rfl, fun hm => (cmakeChar_ne (h _ hm)).1 rfl⟩
+
+theorem any_not_cmake_false {name : List Char} (h : ∀ c ∈ name, isCmakeChar c = true) :
+    (name.any fun c => !isCmakeChar c) = false := by
+  simp only [List.any_eq_false]
+  intro c hc; simp [h c hc]
+
+/-- one step of the repaired scanner at `${name}`: the value goes to the output accumulator and the
+scan continues with the text *after* the placeholder, whatever the value contains -/
+theorem parseLine_var_step (d : Data) (f : Nat) (pre name post : List Char) (m : List Name)
+    (hn : ∀ c ∈ name, isCmakeChar c = true) (hf : name.length < f) :
+    parseLine false d (f + 1) pre ('$' :: '{' :: (name ++ '}' :: post)) m =
+      parseLine false d f ((varGet d name m).1.reverse ++ pre) post (varGet d name m).2 := by
+  obtain ⟨h1, h2⟩ := name_no_special hn
+  rw [parseLine]
+  simp only [Bool.false_eq_true, if_false, bracket_name post name [] hn, List.reverse_nil, List.nil_append,
+    parseLine_plain false d f [] name m h1 h2 hf, any_not_cmake_false hn]
+
+theorem splitAt_name (post : List Char) : ∀ (name : List Char), '@' ∉ name →
+    splitAt (name ++ '@' :: post) = some (name, post) := by
+  intro name
+  induction name with
+  | nil => intro _; simp [splitAt]
+  | cons c name ih =>
+    intro h
+    have hc : c ≠ '@' := fun e => h (by simp [e])
+    simp [splitAt, hc, ih (fun hh => h (List.mem_cons_of_mem _ hh))]
+
+/-- one step at `@name@` (both cmake formats) -/
+theorem parseLine_at_step (atOnly : Bool) (d : Data) (f : Nat) (pre name post : List Char) (m : List Name)
+    (hne : name ≠ []) (hn : ∀ c ∈ name, isCmakeChar c = true) :
+    parseLine atOnly d (f + 1) pre ('@' :: (name ++ '@' :: post)) m =
+      parseLine atOnly d f ((varGet d name m).1.reverse ++ pre) post (varGet d name m).2 := by
+  obtain ⟨h1, _⟩ := name_no_special hn
+  have hall : name.all isCmakeChar = true := by simpa [List.all_eq_true] using hn
+  have hemp : name.isEmpty = false := by cases name <;> simp_all
+  rw [parseLine]
+  simp [splitAt_name post name h1, hall, hemp]
+
+/-- plain text in front of the scan position is moved to the output accumulator unchanged -/
+theorem parseLine_plain_prefix (atOnly : Bool) (d : Data) : ∀ (p : List Char) (f : Nat) (pre rest : List Char)
+    (m : List Name), (∀ c ∈ p, c ≠ '@' ∧ c ≠ '$') →
+    parseLine atOnly d (f + p.length) pre (p ++ rest) m = parseLine atOnly d f (p.reverse ++ pre) rest m := by
+  intro p
+  induction p with
+  | nil => intros; simp
+  | cons c p ih =>
+    intro f pre rest m h
+    have hc := h c (by simp)
+    have e : f + (c :: p).length = (f + p.length) + 1 := by simp; omega
+    rw [e, List.cons_append, parseLine]
+    · rw [ih f (c :: pre) rest m (fun x hx => h x (List.mem_cons_of_mem _ hx))]; simp
+    · exact hc.1
+    · intro r hh; exact absurd hh hc.2
+
+
+/-- text substituted by the cmake scanner for a name (empty when undefined) -/
+def varVal (d : Data) (nm : Name) : List Char := match d.get? nm with | some v => v.cmakeStr | none => []
+/-- what a look-up adds to the missing list -/
+def varMiss (d : Data) (nm : Name) : List Name := match d.get? nm with | some _ => [] | none => [nm]
+
+theorem varGet_eq (d : Data) (nm : Name) (m : List Name) : varGet d nm m = (varVal d nm, varMiss d nm ++ m) := by
+  unfold varGet varVal varMiss; split <;> simp_all
+
+
+theorem scan_var_wf : ∀ (f : Nat) (p : Bool) (s : List Char) (nm : Name), Seg.var nm ∈ scan f p s →
+    nm ≠ [] ∧ (∀ c ∈ nm, isNameChar c = true) := by
+  intro f
+  induction f with
+  | zero => intro p s nm h; simp [scan] at h
+  | succ f ih =>
+    intro p s nm h
+    cases s with
+    | nil => simp [scan] at h
+    | cons c r =>
+      simp only [scan] at h
+      split at h
+      · rename_i sg rest hm
+        rcases List.mem_cons.mp h with h | h
+        · rcases matchAt_cases hm with h' | h' | h'
+          · obtain ⟨_, n, hn, _⟩ := matchEsc_some h'; rw [← h] at hn; cases hn
+          · obtain ⟨_, _, nm', hn, h1, h2⟩ := matchVar_some h'; rw [← h] at hn; cases hn; exact ⟨h1, h2⟩
+          · obtain ⟨_, nm', hn, _⟩ := matchEscaped_some h'; rw [← h] at hn; cases hn
+        · exact ih _ _ _ h
+      · rcases List.mem_cons.mp h with h | h
+        · cases h
+        · exact ih _ _ _ h
+
+theorem src_infix_of_mem {sg : Seg} : ∀ {l : List Seg}, sg ∈ l → sg.src <:+: l.flatMap Seg.src := by
+  intro l
+  induction l with
+  | nil => intro h; cases h
+  | cons x xs ih =>
+    intro h
+    simp only [List.flatMap_cons]
+    rcases List.mem_cons.mp h with rfl | h
+    · exact (List.prefix_append _ _).isInfix
+    · exact (ih h).trans (List.suffix_append _ _).isInfix
+
 
 end MesonModel.Template
